@@ -6,7 +6,7 @@ META = {
     "C01": {
         "engine": _E1, "design_ref": "DESIGN.md §4 C01",
         "technique": "stateful property-based testing with a generated schedule (rapid + synctest-controlled interleaving), occupancy invariant + TryLock probes at quiescence",
-        "text": "Generated Lock/TryLock/release/double-release/cancel/Locker histories over 2-32 ops with a generated interleaving of all Broadcast critical sections; mutual exclusion is checked at every acquisition with harness-owned occupancy counters and the lock state is probed against the model at every fully quiescent point. Exploration of a bounded space, shrunk replayable counterexamples.",
+        "text": "Generated Lock/TryLock/release/double-release/cancel/Locker histories over 2-32 ops with a generated interleaving of all Broadcast critical sections; mutual exclusion is checked at every acquisition with harness-owned occupancy counters and the lock state is probed against the model at every fully quiescent point. A second, free-running unit (TestC01Free) runs lock/try/double-release/concurrent-release programs with real parallelism and checks the same occupancy invariant, reaching windows between un-hooked atomic operations. Exploration of a bounded space, shrunk replayable counterexamples.",
         "note": "Assumes critical sections of broadcast.Broadcast are the only shared-state steps of csync (true for the anchored code; the hooks sit at their entry/exit). Bounded sizes; sampled, not exhaustive.",
     },
     "C02": {
@@ -30,25 +30,25 @@ META = {
     "C03": {
         "engine": _E1, "design_ref": "DESIGN.md §4 C03",
         "technique": "stateful PBT with generated schedule; channel-generation model + two-sided waiter oracle at synctest quiescence",
-        "text": "Generated waiters/updaters/peekers on one Broadcast with a generated interleaving of critical sections, including broadcasts that land between a waiter's predicate check and its blocking receive. Every wait channel handed out carries the number of broadcasts before it and must be closed iff a later broadcast happened; Wait's return value is checked against the wrapped predicate; a blocked Wait at quiescence must have a false predicate and a live context.",
+        "text": "Generated waiters/updaters/peekers on one Broadcast with a generated interleaving of critical sections, including broadcasts that land between a waiter's predicate check and its blocking receive. Every wait channel handed out carries the number of broadcasts before it and must be closed iff a later broadcast happened; Wait's return value is checked against the wrapped predicate; a blocked Wait at quiescence must have a false predicate and a live context. Waiters also use expired / expiring deadline contexts (virtual time), predicates that report done together with an error, and updates that broadcast twice inside one section. TestC03Free adds real contention incl. the asynchronous slow path of HoldLockMaybeAsync.",
         "note": "Broadcasters broadcast whenever they change the guarded state (documented usage). TryHoldLock/HoldLockMaybeAsync contention paths are only exercised by the free-running race programs (C13).",
     },
     "C15": {
         "engine": _E1, "design_ref": "DESIGN.md §4 C15",
         "technique": "model-based stateful PBT with generated schedule; sequential cell model advanced in critical-section grant order; waiter results checked against the value sampled in their last critical section; blocked-while-satisfied at quiescence",
-        "text": "Writers (SetValue, SwapValue inc/const/nil), readers and all four waiter kinds with contexts and error channels over plain and custom equality; the model is advanced in the exact order the controller grants the critical sections, so every GetValue/SwapValue result and every waiter return is compared with the linearised cell history.",
+        "text": "Writers (SetValue, SwapValue inc/const/nil), readers and all four waiter kinds with contexts and error channels over plain and custom equality; the model is advanced in the exact order the controller grants the critical sections, so every GetValue/SwapValue result and every waiter return is compared with the linearised cell history. TestC15Free checks lost updates / interleaved callbacks with real parallelism.",
         "note": "One critical section per mutator call (true for the anchored code). Values 0..8, equality mod 4.",
     },
     "C11": {
         "engine": _E1, "design_ref": "DESIGN.md §4 C11",
         "technique": "stateful PBT with generated schedule over Promise and PromiseContainer; unique result values make every returned result attributable; spin detection by a grant budget; blocked-despite-result at synctest quiescence",
-        "text": "Setters (incl. context sentinel errors as results), three awaiter kinds with contexts and channels, container replacement ops. Exactly one SetResult may return true, every value returned must be the winner's, a container awaiter may only return the result of a promise that was current after the awaiter's last quiescent block, blocked awaiters at quiescence must have no result, live context and silent channel. An awaiter that keeps taking critical sections without blocking (grant budget exceeded) is reported as a spin.",
+        "text": "Setters (incl. context sentinel errors as results), three awaiter kinds with contexts and channels, container replacement ops. Exactly one SetResult may return true, every value returned must be the winner's, a container awaiter may only return the result of a promise that was current after the awaiter's last quiescent block, blocked awaiters at quiescence must have no result, live context and silent channel. TestC11Free races setters and awaiters on several promises with real parallelism (exactly one winner, everybody sees it). An awaiter that keeps taking critical sections without blocking (grant budget exceeded) is reported as a spin.",
         "note": "Open findings D16a/D16b (container AwaitWithErrCh/AwaitWithCancelCh ignore their channel while an unresolved promise is current) are excluded by construction and reported as KNOWN-FINDING; nil errors on error channels are not generated.",
     },
     "C16": {
         "engine": _E1, "design_ref": "DESIGN.md §4 C16",
         "technique": "stateful PBT with generated schedule; scripted function invocations (blocked until a generated Finish), call counting, stale-error and blocked-without-invocation oracles at quiescence",
-        "text": "Callers are parked before the Once mutex and the wrapped function blocks until the generator finishes it with a value, an error or the initiator's context error, so arrival order relative to completion is a generated quantity. Checked: never two invocations at once, none after success, every value equals the success value, Canceled only for cancelled callers, errors come from an invocation, no caller re-uses an error that another caller had already received before it was issued, live callers are blocked only while an invocation is in flight. MemoizeFunc: exactly one invocation, everyone gets its result.",
+        "text": "Callers are parked before the Once mutex and the wrapped function blocks until the generator finishes it with a value, an error or the initiator's context error, so arrival order relative to completion is a generated quantity. Checked: never two invocations at once, none after success, every value equals the success value, Canceled only for cancelled callers, errors come from an invocation, no caller re-uses an error that another caller had already received before it was issued, live callers are blocked only while an invocation is in flight. MemoizeFunc: exactly one invocation, everyone gets its result. Outcomes include a wrapped cancellation error of the initiating caller; TestC16Free repeats the call-count oracles with real parallelism on several objects.",
         "note": "A function returning context.Canceled while all contexts are live is not generated (property leaves it open).",
     },
     "C17": {
@@ -60,25 +60,25 @@ META = {
     "C18": {
         "engine": _E1, "design_ref": "DESIGN.md §4 C18",
         "technique": "model-based stateful PBT with generated schedule; (queued,running) model advanced in critical-section order, ground-truth counters inside the jobs, probes at quiescence",
-        "text": "Jobs block until the generator finishes them. Checked at every job start: active <= limit and single execution; at quiescence: Enqueue() equals both the model and the harness ground truth, no job waits while a slot is free, observers are not blocked while idle; WaitIdle nil implies all earlier jobs finished; limit 1 start order equals enqueue (critical-section) order; every reported pair satisfies queued>0 => running==limit.",
+        "text": "Jobs block until the generator finishes them. Checked at every job start: active <= limit and single execution; at quiescence: Enqueue() equals both the model and the harness ground truth, no job waits while a slot is free, observers are not blocked while idle; WaitIdle nil implies all earlier jobs finished; limit 1 start order equals enqueue (critical-section) order; every reported pair satisfies queued>0 => running==limit. Observers get nil / non-nil errors on their error channel; TestC18Free checks limit, exactly-once and WaitIdle with real parallelism.",
         "note": "Bounded: <= 60 ops, batches <= 4.",
     },
     "C04": {
         "engine": "E2/E1 controlled scheduler with scripted instances (exit latency is generated)", "design_ref": "DESIGN.md §4 C04",
         "technique": "stateful PBT with generated schedule and scripted user functions; overlap counter at function entry; returned wait channels checked against instance returns",
-        "text": "Generated SetContext/SetRoutine/SetState/SetStateRoutine/RestartRoutine histories in which instances keep 'returning' until a generated Finish, with routine.exec and Broadcast tickets left parked across calls. At every entry of the managed function no other instance may be executing; a channel returned by SetRoutine/SetState may only be closed once every instance of an earlier generation has returned, and no such instance may enter afterwards.",
+        "text": "Generated SetContext/SetRoutine/SetState/SetStateRoutine/RestartRoutine histories in which instances keep 'returning' until a generated Finish, with routine.exec and Broadcast tickets left parked across calls. The oracles do not depend on the reference machine: at every entry of the managed function no other instance may be executing; a channel returned by SetRoutine/SetState may only be closed once every instance of an earlier generation has returned, and no such instance may enter afterwards.",
         "note": "Instance goroutines are bound to the reference machine's spawn tokens by creation order at the routine.exec hook.",
     },
     "C05": {
         "engine": _E1, "design_ref": "DESIGN.md §4 C05",
         "technique": "model-based stateful PBT with concurrent mutators; reference machine (Appendix A.2) advanced in critical-section grant order; cancellation checked when each mutator returns; survivor checked at quiescence",
-        "text": "Concurrent mutator goroutines; when a mutator returns, every instance the machine says it superseded must have a cancelled context; at full quiescence at most one instance has a live context, only if the machine is Running, and it carries the container's current context id and the most recently stored (unique) state; a Running machine with nothing executing is reported.",
+        "text": "Concurrent mutator goroutines; the oracles use only the instances that were executing when a call's critical section was granted and the last granted context/state (no dependence on restart rules). TestC05Free repeats the superseded-implies-cancelled-on-return check with real lock contention; when a mutator returns, every instance it superseded (context replaced or cleared, routine/state replaced, restart) must have a cancelled context; at full quiescence at most one instance has a live context, only if a context, a routine and a non-empty state are set, and it carries the container's current context id and the most recently stored (unique) state.",
         "note": "The container's root context is never cancelled from outside (only replaced), see DESIGN Appendix A.2.",
     },
     "C14": {
         "engine": "E2 sequential histories in virtual time", "design_ref": "DESIGN.md §4 C14",
         "technique": "model-based PBT against the documented state machine in virtual time: scripted outcomes, scripted back-off, exact run/return-value/back-off-log/exit-callback/WaitExited comparison after every settled step",
-        "text": "Every mutator's return values equal the machine's; the managed function is entered exactly by the instances the machine starts (success never re-run except by RestartRoutine/new routine; failure re-run by RestartRoutine, SetContext(restart) or the back-off timer at exactly t+b); NextBackOff/Reset call counts equal the machine's; current exits are reported exactly once to each exit callback; WaitExited returns exactly what was returnable at its last look and is never blocked at quiescence while returnable.",
+        "text": "Runs, exits and waits are compared with the machine (mutator return values are only counted); the managed function is entered exactly by the instances the machine starts (success never re-run except by RestartRoutine/new routine; failure re-run by RestartRoutine, SetContext(restart) or the back-off timer at exactly t+b); NextBackOff/Reset call counts equal the machine's; current exits are reported exactly once to each exit callback; WaitExited returns exactly what was returnable at its last look and is never blocked at quiescence while returnable. TestC14Backoff drives the library's own back-off configuration (routine.WithRetry, exponential/constant, defaults) in virtual time with instances that run up to 40 minutes before failing.",
         "note": "A pending retry dropped by SetContext(other,false)/ClearContext follows the code (not asserted either way); exits of instances superseded by SetRoutine may be reported to callbacks (0 or 1 times).",
     },
     "C06": {
@@ -96,7 +96,7 @@ META = {
     "C08": {
         "engine": _E1, "design_ref": "DESIGN.md §4 C08",
         "technique": "model-based stateful PBT with generated schedule; reference machine (Appendix A.4) advanced in mutex-section grant order; oracles run inside each release function and at synctest quiescence",
-        "text": "Scripted resolver calls (blocked until a generated Finish with value/error, with or without release func), AddRef/Release/SetContext/released() interleaved section by section. Each release function checks on the spot: first invocation, the machine already considers the value gone, the target container no longer holds it, every live reference was last told it is gone. At quiescence every value the machine says is gone has been released exactly once; at the end of the case (all references dropped, context cleared) every value with a release function has been released exactly once.",
+        "text": "Scripted resolver calls (values may repeat, errors incl. context.Canceled, the owner may cancel the root context from outside) (blocked until a generated Finish with value/error, with or without release func), AddRef/Release/SetContext/released() interleaved section by section. Each release function checks on the spot: first invocation, the machine already considers the value gone, the target container no longer holds it, every live reference was last told it is gone. At quiescence every value the machine says is gone has been released exactly once; at the end of the case (all references dropped, context cleared) every value with a release function has been released exactly once.",
         "note": "released() is not called re-entrantly from inside a reference callback (TryLock failure path only under the race programs).",
     },
     "C09": {
